@@ -60,6 +60,13 @@ func TextLoader(r Reader, name string, stream io.Reader) (Loader, error) {
 	}
 
 	fn := func(env *LEnv) *LVal {
+		// Like every other way of loading source, the loader leaves the
+		// current package as it found it: an in-package in the stream does
+		// not leak to the code that runs the loader.
+		prevPkg := env.Runtime.Package
+		defer func() {
+			env.Runtime.Package = prevPkg
+		}()
 		var lval *LVal
 		for _, expr := range exprs {
 			lval = env.Eval(expr.Copy())
